@@ -260,6 +260,23 @@ class RandomPolicy(Policy):
         return o[self.rnd.randrange(len(o))] if o else None
 
 
+class HotLines(RandomPolicy):
+    """Coin flips biased to the lines that touch module-level mutable state of the system under test (the only places where
+    an interleaving can matter): probability p_hot there, p elsewhere -- long stretches run to completion in between."""
+
+    def __init__(self, rnd, p_hot, p):
+        super().__init__(rnd, p)
+        self.p_hot = p_hot
+
+    def decide(self, s, i, loc):
+        hot = len(loc) >= 2 and (loc[0], loc[1]) in s.global_lines
+        if self.rnd.random() < (self.p_hot if hot else self.p):
+            o = s.alive_others(i)
+            if o:
+                return o[self.rnd.randrange(len(o))]
+        return None
+
+
 class PCT(Policy):
     """Random priorities, d priority-change points over the expected run length."""
 
@@ -465,6 +482,8 @@ def make_policy(spec, n, rnd, expected_yields=4000):
         return Solo()
     if k == "random":
         return RandomPolicy(rnd, spec["p"])
+    if k == "hot":
+        return HotLines(rnd, spec["p_hot"], spec["p"])
     if k == "pct":
         return PCT(rnd, n, spec["d"], expected_yields)
     if k == "window":
